@@ -389,9 +389,9 @@ Qed.
 
 (* a SELECT result: written and read back when it is expressible, refused when it is not *)
 Lemma xml_select : forall c, wf c = true -> c_fmt c = FXml -> c_ask c = None ->
-  model_obs c = if xml_expressible c then OSel (c_vars c) (map bound_of (c_rows c)) else ORefused.
+  format_obs c = if xml_expressible c then OSel (c_vars c) (map bound_of (c_rows c)) else ORefused.
 Proof.
-  intros c Hwf Hf Ha. unfold model_obs. rewrite Hf, Ha.
+  intros c Hwf Hf Ha. unfold format_obs. rewrite Hf, Ha.
   unfold wf in Hwf. rewrite Hf in Hwf. apply andb_true_iff in Hwf. destruct Hwf as [Hwf Hsome].
   apply andb_true_iff in Hwf. destruct Hwf as [Hnd Hrows]. apply andb_true_iff in Hnd. destruct Hnd as [Hnd Hnm].
   pose proof Hrows as Hrows0.
@@ -445,11 +445,11 @@ Proof.
   rewrite forallb_forall in Hnames. auto.
 Qed.
 
-Lemma xml_ok : forall c, wf c = true -> c_fmt c = FXml -> spec_ok c (model_obs c) = true.
+Lemma xml_ok : forall c, wf c = true -> c_fmt c = FXml -> spec_ok c (format_obs c) = true.
 Proof.
   intros c Hwf Hf. unfold spec_ok. rewrite Hf.
   destruct (c_ask c) as [b|] eqn:Ea.
-  - unfold model_obs. rewrite Hf, Ea. rewrite xml_ask. apply eqb_reflx.
+  - unfold format_obs. rewrite Hf, Ea. rewrite xml_ask. apply eqb_reflx.
   - rewrite (xml_select c Hwf Hf Ea). destruct (xml_expressible c); [|reflexivity].
     unfold spec_select. rewrite list_eqb_refl by apply str_eqb_refl. cbn [andb]. apply rows_ok_bound_of.
     unfold wf in Hwf. apply andb_true_iff in Hwf. destruct Hwf as [Hwf _].
